@@ -175,6 +175,99 @@ func (p *c12) pairChecks(x *res, a, b string, ctx *runner.Ctx) {
 	}
 }
 
+// copyWhileChanging: one update copies the number n into another attribute while an action of the same
+// expression changes n: every right-hand side reads the pre-update item, so the copy holds the OLD value of n,
+// exactly (no arithmetic is performed on it)
+func (p *c12) copyWhileChanging(x *res, a, b string) {
+	forms := map[string]*refmodel.Update{
+		"copy+add": {Actions: []refmodel.Action{{Kind: "SET", Path: refmodel.P("p"), RHS: up(refmodel.P("n"))}, {Kind: "ADD", Path: refmodel.P("n"), RHS: uv(":v")}}},
+		"add+copy": {Actions: []refmodel.Action{{Kind: "ADD", Path: refmodel.P("n"), RHS: uv(":v")}, {Kind: "SET", Path: refmodel.P("p"), RHS: up(refmodel.P("n"))}}},
+		"copy+plus": {Actions: []refmodel.Action{{Kind: "SET", Path: refmodel.P("p"), RHS: up(refmodel.P("n"))}, {Kind: "SET", Path: refmodel.P("n"), RHS: &refmodel.UExpr{Kind: "plus", Kids: []*refmodel.UExpr{up(refmodel.P("n")), uv(":v")}}}}},
+		"minus+copy": {Actions: []refmodel.Action{{Kind: "SET", Path: refmodel.P("n"), RHS: &refmodel.UExpr{Kind: "minus", Kids: []*refmodel.UExpr{up(refmodel.P("n")), uv(":v")}}}, {Kind: "SET", Path: refmodel.P("p"), RHS: up(refmodel.P("n"))}}},
+		"ifne-copy+add": {Actions: []refmodel.Action{{Kind: "SET", Path: refmodel.P("p"), RHS: &refmodel.UExpr{Kind: "ifne", Path: refmodel.P("n"), Kids: []*refmodel.UExpr{uv(":v")}}}, {Kind: "ADD", Path: refmodel.P("n"), RHS: uv(":v")}}},
+	}
+	names := []string{}
+	for k := range forms {
+		names = append(names, k)
+	}
+	sort.Strings(names)
+	for _, kind := range names {
+		u := forms[kind]
+		it := val.Item{"n": val.Num(a), "z": val.Str("bystander")}
+		values := val.Item{":v": val.Num(b)}
+		want := u.Apply(it, values)
+		got, msg, site, after := updateDirect(u.Render(map[string]string{}, rrCanon), nil, it, values)
+		x.r.Evals++
+		x.r.Counters["copy_while_changing"]++
+		if got == "panic" {
+			x.viol("runtime-panic", site, fmt.Sprintf("%s with n=%s :v=%s: panic %s", kind, a, b, msg), map[string]interface{}{"a": a, "b": b, "kind": kind})
+			continue
+		}
+		if want.Unsure || want.Reject || got != "ok" {
+			continue // the arithmetic part is judged by the arith rules
+		}
+		if !val.Equal(after["p"], val.Num(a)) {
+			sfx := ""
+			if after["p"].K == val.KN && val.NumEqual(after["p"].Str, f64str(f64(a))) {
+				sfx = "~float64"
+			}
+			x.viol("copy-of-number"+sfx, kind, fmt.Sprintf("%s with n=%s :v=%s: the copy p is %s, want the pre-update value %s", kind, a, b, after["p"].Canon(), a), map[string]interface{}{"a": a, "b": b, "kind": kind, "got": after["p"]})
+		}
+	}
+}
+
+// storeExactly: an update that only STORES a number (SET from a :value, into a map member, a list element, as
+// the default of if_not_exists, through list_append) performs no arithmetic: the stored number equals the given
+// numeral digit for digit (38 significant digits), wherever it lands
+func (p *c12) storeExactly(x *res, a, b string) {
+	type form struct {
+		name string
+		u    *refmodel.Update
+		vals val.Item
+		read func(val.Item) (val.V, bool)
+	}
+	top := func(n string) func(val.Item) (val.V, bool) {
+		return func(it val.Item) (val.V, bool) { v, ok := it[n]; return v, ok }
+	}
+	forms := []form{
+		{"set-value", &refmodel.Update{Actions: []refmodel.Action{{Kind: "SET", Path: refmodel.P("p"), RHS: uv(":v")}}}, val.Item{":v": val.Num(b)}, top("p")},
+		{"set-over-number", &refmodel.Update{Actions: []refmodel.Action{{Kind: "SET", Path: refmodel.P("n"), RHS: uv(":v")}}}, val.Item{":v": val.Num(b)}, top("n")},
+		{"set-map-member", &refmodel.Update{Actions: []refmodel.Action{{Kind: "SET", Path: refmodel.P("m", "k"), RHS: uv(":v")}}}, val.Item{":v": val.Num(b)},
+			func(it val.Item) (val.V, bool) { return refmodel.P("m", "k").Resolve(it) }},
+		{"set-list-element", &refmodel.Update{Actions: []refmodel.Action{{Kind: "SET", Path: refmodel.Path{{Name: "l"}, {IsIdx: true, Idx: 0}}, RHS: uv(":v")}}}, val.Item{":v": val.Num(b)},
+			func(it val.Item) (val.V, bool) { return refmodel.Path{{Name: "l"}, {IsIdx: true, Idx: 0}}.Resolve(it) }},
+		{"ifne-default", &refmodel.Update{Actions: []refmodel.Action{{Kind: "SET", Path: refmodel.P("p"), RHS: &refmodel.UExpr{Kind: "ifne", Path: refmodel.P("nope"), Kids: []*refmodel.UExpr{uv(":v")}}}}}, val.Item{":v": val.Num(b)}, top("p")},
+		{"list-append", &refmodel.Update{Actions: []refmodel.Action{{Kind: "SET", Path: refmodel.P("l"), RHS: &refmodel.UExpr{Kind: "append", Kids: []*refmodel.UExpr{up(refmodel.P("l")), uv(":v")}}}}}, val.Item{":v": val.List(val.Num(b))},
+			func(it val.Item) (val.V, bool) { return refmodel.Path{{Name: "l"}, {IsIdx: true, Idx: 2}}.Resolve(it) }},
+		{"set-list-value", &refmodel.Update{Actions: []refmodel.Action{{Kind: "SET", Path: refmodel.P("p"), RHS: uv(":v")}}}, val.Item{":v": val.Map(map[string]val.V{"deep": val.List(val.Num(b))})},
+			func(it val.Item) (val.V, bool) { return refmodel.Path{{Name: "p"}, {Name: "deep"}, {IsIdx: true, Idx: 0}}.Resolve(it) }},
+		{"add-creates", &refmodel.Update{Actions: []refmodel.Action{{Kind: "ADD", Path: refmodel.P("p"), RHS: uv(":v")}}}, val.Item{":v": val.Num(b)}, top("p")},
+	}
+	for _, f := range forms {
+		it := val.Item{"n": val.Num(a), "m": val.Map(map[string]val.V{"k": val.Num(a), "o": val.Str("x")}), "l": val.List(val.Num(a), val.Str("x")), "z": val.Str("bystander")}
+		got, msg, site, after := updateDirect(f.u.Render(map[string]string{}, rrCanon), nil, it, f.vals)
+		x.r.Evals++
+		x.r.Counters["store_exactly"]++
+		wit := map[string]interface{}{"a": a, "b": b, "kind": f.name}
+		if got == "panic" {
+			x.viol("runtime-panic", site, fmt.Sprintf("%s with :v=%s: panic %s", f.name, b, msg), wit)
+			continue
+		}
+		if got != "ok" {
+			x.viol("store-rejected", f.name, fmt.Sprintf("%s with :v=%s rejected: %s", f.name, b, msg), wit)
+			continue
+		}
+		v, ok := f.read(after)
+		if !ok || !val.Equal(v, val.Num(b)) {
+			sfx := ""
+			if ok && v.K == val.KN && val.NumEqual(v.Str, f64str(f64(b))) {
+				sfx = "~float64"
+			}
+			x.viol("stored-number-differs"+sfx, f.name, fmt.Sprintf("%s with :v=%s stored %s", f.name, b, v.Canon()), wit)
+		}
+	}
+}
+
 func explainedByFloatRoundTrip(got, orig val.V) bool {
 	if got.K != orig.K {
 		return false
@@ -358,6 +451,8 @@ func (p *c12) RunCase(ctx *runner.Ctx) runner.CaseResult {
 		a := c12Pool[ctx.Case]
 		for _, b := range c12Pool {
 			p.pairChecks(x, a, b, ctx)
+			p.copyWhileChanging(x, a, b)
+			p.storeExactly(x, a, b)
 		}
 		if ctx.Case%9 == 0 {
 			x.r.Sample = map[string]interface{}{"kind": "pair-row", "a": a, "against": c12Pool}
@@ -371,6 +466,8 @@ func (p *c12) RunCase(ctx *runner.Ctx) runner.CaseResult {
 		for _, a := range []string{"1.0", "01", "1e0", "10E-1", "0.10E1"}[ctx.Case-n-4 : ctx.Case-n-3] {
 			for _, b := range c12Pool {
 				p.pairChecks(x, a, b, ctx)
+				p.copyWhileChanging(x, a, b)
+			p.storeExactly(x, a, b)
 			}
 		}
 	default:
